@@ -22,7 +22,7 @@ RULE = (
     "cases = (native sequence of 1-10 records over {MOVED_FROM c, MOVED_TO c, CREATE, DELETE, MODIFY, sub-watch IGNORED} "
     "x file/dir, each cookie on at most one FROM and one TO incl. swapped order; batches [(gap, number of records)] with "
     "gaps from {0, d/2, d-eps, d, d+eps, 2d}; records-per-read cuts; consumer think time; optional early close; "
-    "schedule).  Exhaustive: DFS with <= k preemptions (k=1 quick, 2 thorough) over 7 fixed programs with line points in "
+    "schedule).  Exhaustive: DFS with <= k preemptions (k=1 quick, 2 thorough) over 9 fixed programs with line points in "
     "inotify_buffer.py and delayed_queue.py, and every cut of every sequence of length <= 4 (quick) / 5 (thorough) over a "
     "reduced alphabet under the default schedule; random: Hypothesis programs x random schedules.  non-trivial = a pair "
     "split across two batches, or a gap within eps of d, or a preemption taken inside the buffer/queue code; distinct = "
@@ -200,6 +200,9 @@ FIXED = [
     {"records": [R("FROM", 1, False, 0), R("FROM", 2, False, 1), R("TO", 2, False, 2), R("TO", 1, False, 3)], "batches": [(0.0, 2), (D / 2, 2)], "think": 0, "cuts": None},
     {"records": [R("FROM", 1, False, 0), R("IGNORED", 0, False, 1), R("DELETE", 0, False, 2), R("TO", 1, False, 3)], "batches": [(0.0, 4)], "think": D / 2, "cuts": [2]},
     {"records": [R("FROM", 1, False, 0), R("TO", 1, False, 1)], "batches": [(0.0, 1), (D / 2, 1)], "think": 0, "cuts": None, "early_close": D / 4},
+    # the partner arrives exactly when the delay expires: reader (remove) and consumer (pop) run at the same instant
+    {"records": [R("FROM", 1, False, 0), R("TO", 1, False, 1)], "batches": [(0.0, 1), (D, 1)], "think": 0, "cuts": None},
+    {"records": [R("FROM", 1, True, 0), R("MODIFY", 0, False, 1), R("TO", 1, True, 2)], "batches": [(0.0, 2), (D, 1)], "think": 0, "cuts": None},
 ]
 
 
